@@ -1,4 +1,5 @@
 """C13 — Command-line contract: exit status, OK line and diagnostics agree (DESIGN.md §3 C13)."""
+import re
 from vlib.mir import norm, loc_str, op_place, switch_info, explore
 
 CLI = "ironplcc::cli::"
@@ -241,6 +242,93 @@ def rule_exit(ctx, rep, rid="R-C13-exit"):
                 r_e.ok(inst, loc_str(b.f, cs[0].loc))
 
 
+def rule_argv(ctx, rep, rid="R-C13-argv"):
+    """The paths the commands work on are the arguments as the user gave them.  An `#[arg(..)]` attribute on a `files: Vec<PathBuf>` field
+    that rewrites them - `value_delimiter` splits a name at a character, `value_parser` / `default_value*` / `num_args` with a terminator
+    turn them into something else - makes `check dir` and `check dir/a,b.st` disagree about a file that exists.  The attributes are macro
+    input (like the grammar): they are read from the source of the binary."""
+    import os
+    from vlib import facts as FF
+    r = rep.rule(rid, "the path arguments of check / echo / tokenize reach the commands as given: no #[arg] attribute on a `files: Vec<PathBuf>` field splits or rewrites them",
+                 floor=3, floor_what="path-list fields of the command-line definition")
+    path = os.path.join(FF.WS, "plc2x/bin/main.rs")
+    try:
+        text = open(path, encoding="utf-8").read()
+    except OSError:
+        rep.error(rid, "plc2x/bin/main.rs not readable")
+        return
+    REWRITE = ("value_delimiter", "use_value_delimiter", "value_parser", "default_value", "default_values", "default_value_t", "default_missing_value", "value_terminator",
+               "require_equals", "env")
+    k = 0
+    for m in re.finditer(r"((?:\s*(?:///[^\n]*|#\[[^\]]*\])\s*\n)*)\s*(\w+)\s*:\s*Vec\s*<\s*PathBuf\s*>", text):
+        k += 1
+        line = text[:m.start(2)].count("\n") + 1
+        attrs = re.findall(r"#\[\s*(?:arg|clap)\s*\(([^\]]*)\)\s*\]", m.group(1))
+        bad = sorted({w for a in attrs for w in re.findall(r"[A-Za-z_]+", a) if w in REWRITE})
+        inst = "main.rs|%s#%d" % (m.group(2), k)
+        if bad:
+            r.finding(inst + "|" + ",".join(bad), "plc2x/bin/main.rs:%d" % line, "the path list is rewritten by the argument parser (%s): a file whose name the rewriting touches is a different "
+                      "argument than the file a directory listing finds" % ", ".join(bad))
+        else:
+            r.ok(inst, "plc2x/bin/main.rs:%d" % line, "taken as given")
+
+
+def rule_everyfile(ctx, rep, rid="R-C13-everyfile"):
+    """`tokenize` succeeds only if every file tokenizes: in its loop over the sources, every way from the call that tokenizes a file to the
+    next file passes the test of that file's problems (`diagnostics.is_empty()`).  A `continue` in between (for a file without tokens, a file
+    that is 'too small to matter') skips the verdict of that file."""
+    r = rep.rule(rid, "cli::tokenize tests the problems of every file it tokenizes: no way from tokenize_program to the next iteration avoids the emptiness test of its problems",
+                 floor=1, floor_what="tokenizing calls in the per-file loop")
+    bs = ctx.prog.get(CLI + "tokenize")
+    if not bs:
+        rep.error(rid, "cli::tokenize not found")
+        return
+    b = with_helpers(ctx, bs[0])
+    n = 0
+    for c in sorted(b.calls(), key=lambda c: (c.loc[0], c.loc[1])):
+        if not (c.callee or "").endswith("tokenize_program"):
+            continue
+        n += 1
+        where = loc_str(b.f, c.loc)
+        heads = {h.bb for h in b.calls() if (h.u or "").endswith("Iterator::next") and c.bb in b.reachable(h.bb) and h.bb in b.reachable(c.bb)}
+        if not heads:
+            r.ok("tokenize|tokenize_program#%d" % n, where, "not in a loop")
+            continue
+        tests = set()
+        for i in b.reachable(c.bb):
+            si = switch_info(b, i)
+            if si and si["kind"] == "bool" and si["subject"][0] == "call" and (si["subject"][1].callee or "").split("::")[-1] in ("is_empty", "len"):
+                ap = op_place(si["subject"][1].args[0]) if si["subject"][1].args else None
+                rt = b.root(ap) if ap is not None else None
+                if rt is not None and rt[0] == c.dest[0]:
+                    tests.add(i)
+                elif rt is not None:
+                    # the problems moved out of the pair first (`let (tokens, diagnostics) = tokenize_program(..)`)
+                    d0 = b.single_def(rt[0])
+                    if d0 and d0[0] == "stmt" and d0[3][0] == "use" and op_place(d0[3][1]) is not None and b.root(op_place(d0[3][1]))[0] == c.dest[0]:
+                        tests.add(i)
+        if not tests:
+            r.finding("tokenize|tokenize_program#%d|problems-not-tested" % n, where, "the problems of the file are never tested for emptiness")
+            continue
+        seen, st, bad = set(), list(b.succ(c.bb)), False
+        while st:
+            x = st.pop()
+            if x in seen or x in tests:
+                continue
+            seen.add(x)
+            if x in heads:
+                bad = True
+                break
+            st.extend(b.succ(x))
+        if bad:
+            r.finding("tokenize|tokenize_program#%d|file-skipped-before-verdict" % n, where, "a way from tokenizing a file to the next file does not test the file's problems: a file that takes "
+                      "that way is counted as fine whatever the tokenizer reported")
+        else:
+            r.ok("tokenize|tokenize_program#%d" % n, where, "every way to the next file passes the test of this file's problems")
+    if not n:
+        rep.error(rid, "cli::tokenize does not call tokenize_program (anchor moved)")
+
+
 def rule_pushadds(ctx, rep, rid="R-C13-pushadds"):
     """A file named on the command line is either in the project or an error: FileBackedProject::push has no way to say Ok without having
     added the file.  A `return Ok(())` for files push decides not to read (an extension table, a size limit) makes `echo F` / `tokenize F` /
@@ -371,6 +459,8 @@ def run(ctx, rep):
 
     rule_exit(ctx, rep)
     rule_pushadds(ctx, rep)
+    rule_argv(ctx, rep)
+    rule_everyfile(ctx, rep)
     from rules import c13_dir, c13_nonempty, c13_emitall
     c13_dir.run(ctx, rep)
     c13_nonempty.run(ctx, rep)
